@@ -41,6 +41,11 @@ example : (reach poscDb exG exOps3).results = [some 0, some 1, some 2] ∧
     ((reach poscDb exG exOps3).st.objs[2]?.map (view (reach poscDb exG exOps3).st.heap)) =
       some (some [(sLength, ⟨sM, 2, false⟩), (sTime, ⟨sS, -1, false⟩)], 0, true) := by decide +kernel
 
+-- the dict form validates the units on a miss: the first request is accepted, the swapped one raises a
+-- units error and stores nothing
+example : (reach poscDb exG exOps4).results = [some 0, none] ∧ (reach poscDb exG exOps4).st.cache.length = 1 ∧
+    (stepState poscDb exG (reach poscDb exG [exGoodOp]) exBadOp).2 = .err .units := by decide +kernel
+
 end examples
 
 end Barril.Intern
